@@ -4,7 +4,6 @@
 package serf
 
 import (
-	"bytes"
 	"fmt"
 
 	"github.com/hashicorp/go-metrics/compat"
@@ -99,16 +98,15 @@ func (d *delegate) NotifyMsg(buf []byte) {
 	case messageRelayType:
 		var header relayHeader
 		var handle codec.MsgpackHandle
-		reader := bytes.NewReader(buf[1:])
-		decoder := codec.NewDecoder(reader, &handle)
+		decoder := codec.NewDecoderBytes(buf[1:], &handle)
 		if err := decoder.Decode(&header); err != nil {
 			d.serf.logger.Printf("[ERR] serf: Error decoding relay header: %s", err)
 			break
 		}
 
 		// The remaining contents are the message itself, so forward that
-		raw := make([]byte, reader.Len())
-		_, _ = reader.Read(raw)
+		raw := make([]byte, len(buf)-1-decoder.NumBytesRead())
+		copy(raw, buf[1+decoder.NumBytesRead():])
 
 		addr := memberlist.Address{
 			Addr: header.DestAddr.String(),
